@@ -274,6 +274,11 @@ def layout_replay(cls_name, n_records, skip):
                 failed.append({'clause': 'raw_barcode_tag', 'bc': o.tags.get('bc'), 'bases_in_read': raw})
             if s.umiLength != 0 and o.tags.get('RX') != recs[s.umiRead].sequence[s.umiStart:s.umiStart + s.umiLength]:
                 failed.append({'clause': 'umi_tags', 'RX': o.tags.get('RX')})
+            if s.umiLength != 0:
+                enc = importlib.import_module('singlecellmultiomics.modularDemultiplexer.baseDemultiplexMethods').phredToFastqHeaderSafeQualities
+                want_rq = enc(recs[s.umiRead].qual[s.umiStart:s.umiStart + s.umiLength])
+                if o.tags.get('RQ') != want_rq:
+                    failed.append({'clause': 'umi_tags', 'RQ': o.tags.get('RQ'), 'expected': want_rq})
             if s.random_primer_read is not None:
                 exp = recs[s.random_primer_read].sequence[-s.random_primer_length:] if s.random_primer_end else \
                     recs[s.random_primer_read].sequence[:s.random_primer_length]
